@@ -516,6 +516,10 @@ func judgeC03(ex *execution, e *Expect, out *Verdict) {
 			// the leading "" of UpdateArgs is a marker addressed to the adaptation ("replace,
 			// whoever set them"), not part of the command line
 			adj.Args = adj.Args[1:]
+			if len(adj.Args) == 0 && rhs.Process != nil {
+				// the bare marker: nothing is set again, the command line is the runtime's
+				rhs.Process.Args = append([]string{}, specOf(orig).Process.Args...)
+			}
 		}
 		n, err := applyAdjust(rhs, adj)
 		if err != nil {
